@@ -16,6 +16,8 @@ SHAPES = {
     "n0": dict(g="", ps=[], ret="i64", res="7", show_res="{}"),
     "a1": dict(g="", ps=[("a", "i64", "11", "a")], ret="i64", res="a + 1"),
     "a2": dict(g="", ps=[("a", "i64", "11", "a"), ("b", "i64", "12", "b")], ret="i64", res="a * 100 + b"),
+    # like a2, but the trait is stamped out by macro_rules and the two parameters are spelled identically (hygiene)
+    "h2": dict(g="", ps=[("$p", "i64", "11", "a"), ("a", "i64", "12", "b")], ret="i64", res="a * 100 + b", stamped=True),
     "s2": dict(g="", ps=[("a", "&str", '"s11"', "a"), ("b", "i64", "12", "b")], ret="String", res='format!("{}-{}", a, b)'),
     "bor": dict(g="<'x>", recv="&'x self", ps=[("a", "&'x str", '"s11"', "a")], ret="&'x str", res="a"),
     "slf": dict(g="", ps=[], ret="&str", res="self.name()"),
@@ -85,6 +87,9 @@ def render(s):
     else:
         head = "pub trait Tr%s%s" % (G, sup)
     L = ["mod %s {" % key, "    use super::rt;"]
+    stamped = any(SHAPES[x].get("stamped") for x in w)
+    if stamped:
+        L.append("    macro_rules! stamp { ($p:ident) => {")
     L.append("    #[::entrait::entrait(%s)]" % attr)
     if at:
         L.append("    " + at)
@@ -93,6 +98,9 @@ def render(s):
     for i, x in enumerate(w):
         L.append("        " + method_decl(x, "m%d" % i))
     L.append("    }")
+    if stamped:
+        L.append("    } }")
+        L.append("    stamp!(a);")
     # tracing provider
     L.append("    pub struct P(pub &'static str);")
     if at:
@@ -105,7 +113,7 @@ def render(s):
         ev = "rt::ev(%s);" % gen.fmt_call("P.m%d|{:x}" % i if False else "P.m%d" % i, ['format!("{:x}", rt::addr(self))'] + shows)
         pre = "rt::yield_once().await; " if d.get("asy") else ""
         res = d["res"].replace("G", "i64") if False else d["res"]
-        decl = method_decl(x, "m%d" % i, pre + ev + " " + res)
+        decl = method_decl(x, "m%d" % i, pre + ev + " " + res).replace("$p:", "a:").replace(", a: i64)", ", b: i64)") if d.get("stamped") else method_decl(x, "m%d" % i, pre + ev + " " + res)
         if s["generic"]:
             decl = decl.replace(": G", ": i64").replace("-> G", "-> i64")
         L.append("        " + decl)
@@ -136,6 +144,8 @@ def render(s):
             d = SHAPES[x]
             body = d["res"]
             decl = method_decl(x, "m%d" % i, body)
+            if d.get("stamped"):
+                decl = decl.replace("$p:", "a:").replace(", a: i64)", ", b: i64)")
             if s["generic"]:
                 decl = decl.replace(": G", ": i64").replace("-> G", "-> i64")
             L.append("        " + decl)
@@ -174,7 +184,7 @@ def model(s):
         d = SHAPES[x]
         shown = {"11": "11", "12": "12", '"s11"': "s11", "11i64": "11", "11u8": "11"}
         args = [shown[p[2]] for p in d["ps"]]
-        res = {"n0": "7", "a1": "12", "a2": "1112", "s2": "s11-12", "bor": "s11", "slf": "prov", "gen": "11", "gm": "11",
+        res = {"n0": "7", "a1": "12", "a2": "1112", "h2": "1112", "s2": "s11-12", "bor": "s11", "slf": "prov", "gen": "11", "gm": "11",
                "xa1": "12", "xa2": "1112", "xs": "3", "xu": "()"}[x]
         exp["m%d" % i] = dict(trace_tail="|".join(args), result=res)
     try_dyn = all(SHAPES[x].get("dyn", True) for x in w) and not (asy and s["flavour"] == "native")
